@@ -42,14 +42,14 @@ def unauthorised(sc, n):
 
 CONFIG = {
     'C01': {
-        'profiles': [('attest', 400, 6000), ('flows', 15, 400)],
+        'profiles': [('dropped', 40, 800), ('attest', 400, 6000), ('flows', 15, 400)],
         'rules': [(r'VERIFY', 'V', None), (r'TX:(ReceiveMessage|ReplaceMessage|ReplaceDepositForBurn)$', 'R', r'^(ok|err|panic)')],
         'monitors': [M.mon_c01],
         'level_text': 'Theorems for every message, attestation, attester list, threshold and EVERY recovery function: the verifier accepts exactly when the threshold is non-zero, the attestation is exactly threshold-many 65-byte chunks, each chunk (27/28 normalised to 0/1) recovers over keccak256(message) to the hex decoding of an enabled attester string, and the signer addresses are strictly increasing; hence an accepted attestation carries threshold-many pairwise distinct enabled keys (no duplicate, twin or reordering passes), wrong lengths are rejected, the verifier never panics, and receive / both replacements succeed only if it accepts with the attesters and threshold read from the current store. Tied to the Go verifier by differential execution of honest attestations by real secp256k1 keys under 16 mutation operators, directly and through the handlers; the quorum rule is also recomputed on the implementation trace from go-ethereum recoveries made by the harness.',
         'assumptions': ['not proved: that a recovered key means its holder signed (ECDSA unforgeability) and that honest signatures recover to the signer (exercised with real keys and both v encodings)'],
     },
     'C02': {
-        'profiles': [('receive-history', 60, 1500), ('flows', 25, 600), ('receive-matrix', 100, 2000)],
+        'profiles': [('dropped', 30, 600), ('receive-history', 60, 1500), ('flows', 25, 600), ('receive-matrix', 100, 2000)],
         'rules': [(r'TX:ReceiveMessage', 'R', None), (ANY, 'S', r'^nonce '), (r'Q:UsedNonces?$', 'QR', None), (r'EXPORT', 'X', r'^nonce ')],
         'monitors': [M.mon_c02],
         'level_text': 'Theorems over all histories of any length from any chain and all pairs in uint32 x uint64: at most one receive of a pair succeeds (none if the pair was already used), a used pair stays used under every transaction type, a pair is used only if the start state listed it or a receive of it succeeded, the store key is injective and decoded headers are in range. The Go keeper is tied to the model by differential execution of receive histories over colliding pools of pairs with retries after failures, attester rotation, pausing and re-linking; the at-most-once monitor runs on the implementation trace.',
@@ -94,14 +94,14 @@ CONFIG = {
         'level_text': 'Theorems: replace-message succeeds only when sending is not paused, the original verifies under the attesters and threshold stored now, has source domain 4 and the submitter as sender, and re-emits it with only body and caller changed; replace-deposit-for-burn additionally needs minting not paused, a 132-byte burn body whose depositor is the submitter, a non-zero new recipient and the module as original sender, and keeps burn token, amount, depositor and version; both leave store and ledger untouched and make no dependency call, accepted or not. Tied to the Go handlers by differential execution over own / foreign / fabricated / tampered / unattested / rotated-set originals. Tied to the Go source twice: by TRANSLATION (tools/goextract reads the handler(s) from /repo on every run and emits Gallina programs; the theorem file proves they equal the model handlers for every request and state wherever the model gives a verdict - evidence lists which functions were translated on this run and which, if any, the translator could not read) and by differential execution.',
     },
     'C12': {
-        'profiles': [('pause-matrix', 6, 60), ('flows', 20, 500)],
+        'profiles': [('dropped', 40, 800), ('pause-matrix', 6, 60), ('flows', 20, 500)],
         'rules': [(r'TX:(SendMessage|SendMessageWithCaller|DepositForBurn|DepositForBurnWithCaller|ReplaceMessage|ReplaceDepositForBurn|ReceiveMessage)$', 'R', r'^(ok|err|panic)'), (ANY, 'S', r'^flag '), (r'TX:(Pause|Unpause).*', 'R', None), (r'TX:(Pause|Unpause).*', 'E', None),
                   (r'Q:(BurningAndMintingPaused|SendingAndReceivingMessagesPaused)', 'QR', None)],
         'monitors': [M.mon_c12],
         'level_text': 'Theorems: with sending-and-receiving paused none of the eight flows succeeds; with burning-and-minting paused no deposit, deposit replacement or module-addressed receive succeeds, while sends, message replacements and other receives are provably independent of that flag (non-interference of the handler function); all 18 administrative handlers are independent of both flags; each flag changes only through its own pause/unpause by the pauser; pausing is idempotent and unpause after pause restores the store. Tied to the Go handlers by exhaustive execution of 4 flag states x 8 flows with otherwise valid inputs, before and after pause/unpause sequences by all accounts. Tied to the Go source twice: by TRANSLATION (tools/goextract reads the handler(s) from /repo on every run and emits Gallina programs; the theorem file proves they equal the model handlers for every request and state wherever the model gives a verdict - evidence lists which functions were translated on this run and which, if any, the translator could not read) and by differential execution.',
     },
     'C14': {
-        'profiles': [('faults', 6, 80), ('flows', 20, 500)],
+        'profiles': [('dropped', 30, 600), ('faults', 6, 80), ('flows', 20, 500)],
         'rules': [(r'TX:(DepositForBurn|DepositForBurnWithCaller|ReceiveMessage)$', 'R', r'^(ok|err|panic)'), (r'TX:(DepositForBurn|DepositForBurnWithCaller|ReceiveMessage)$', 'D', None),
                   (r'TX:(DepositForBurn|DepositForBurnWithCaller|ReceiveMessage)$', 'S', None), (r'TX:(DepositForBurn|DepositForBurnWithCaller|ReceiveMessage)$', 'E', None)],
         'monitors': [M.mon_c14],
@@ -109,7 +109,7 @@ CONFIG = {
         'assumptions': ['the SDK discards the state branch and events of a message whose handler returned an error: re-implemented in the harness (CacheContext, write only on success) and as deliver in the model'],
     },
     'C07': {
-        'profiles': [('outbound', 60, 1500), ('flows', 25, 600), ('replace', 25, 600)],
+        'profiles': [('dropped', 30, 600), ('outbound', 60, 1500), ('flows', 25, 600), ('replace', 25, 600)],
         'rules': [(r'TX:(SendMessage|SendMessageWithCaller|DepositForBurn|DepositForBurnWithCaller|ReplaceMessage|ReplaceDepositForBurn)$', 'R', None),
                   (ANY, 'S', r'^num name=nextnonce'), (r'Q:NextAvailableNonce', 'QR', None),
                   (r'TX:(SendMessage|SendMessageWithCaller|DepositForBurn|DepositForBurnWithCaller|ReplaceMessage|ReplaceDepositForBurn)$', 'E', r'MessageSent')],
@@ -125,7 +125,7 @@ CONFIG = {
         'assumptions': ['token-pair keys are Keccak-256 digests: distinct (domain, token) pairs share a key only on a hash collision, which validation (comparing the derived keys) would reject anyway'],
     },
     'C19': {
-        'profiles': [('registry', 25, 600), ('admin-random', 20, 400)],
+        'profiles': [('dropped', 30, 600), ('registry', 25, 600), ('admin-random', 20, 400)],
         'rules': [(r'Q:.*', 'QR', None), (r'TX:(EnableAttester|DisableAttester|LinkTokenPair|UnlinkTokenPair|AddRemoteTokenMessenger|RemoveRemoteTokenMessenger|SetMaxBurnAmountPerMessage)$', 'R', None),
                   (ANY, 'S', r'^(attester|limit|pair|messenger|nonce) ')],
         'monitors': [M.mon_c19],
@@ -140,14 +140,14 @@ CONFIG = {
         'assumptions': ['partial: panic sites inside dependencies that were not found by reading can only be found by the sampling; text outside ASCII + U+017F + U+212A is exercised on the implementation only (the model answers Unmodelled)'],
     },
     'C18': {
-        'profiles': [('determinism', 12, 200)],
+        'profiles': [('dropped', 10, 100), ('determinism', 12, 200)],
         'rules': [(r'TX:.*', 'R', None), (r'TX:.*', 'E', None), (r'TX:.*', 'S', None), (r'TX:.*', 'D', None), (r'Q:.*', 'QR', None), (r'EXPORT', 'X', None)],
         'monitors': [M.mon_c18],
         'level_text': 'Partial by nature. Proved: the model\'s transition is a function of (environment, chain, dependency plan, transaction) with no other input; a system of several instances under ANY interleaving leaves each instance exactly where its own history alone would (induction over the schedule); the store is canonical (insertions at distinct keys commute); and the Go source as it is now has no import of time / rand / os / sync / unsafe / runtime, no go or select statement, no range over a map and no write to a package-level variable in the state machine (scan regenerated from the source on every run). Not provable in any Gallina model - map iteration order, scheduling, data races - is covered as support by replaying every script on a fresh instance, after an unrelated history in the same process, and concurrently on 8 goroutines (thorough: under the race detector), comparing responses, events, dependency requests, typed state and the IAVL root hash with the first execution and with the model.',
         'assumptions': ['runtime behaviour (map order, scheduler, races) is sampled by replays, not proved'],
     },
     'C10': {
-        'profiles': [('roles-matrix', 324, 324), ('admin-random', 30, 600)],
+        'profiles': [('dropped', 40, 800), ('roles-matrix', 324, 324), ('admin-random', 30, 600)],
         # the property speaks about submitters who do not hold the role: only those steps are compared
         'rules': [(ADMIN_RE, 'R', None, unauthorised), (ADMIN_RE, 'S', None, unauthorised), (ADMIN_RE, 'E', None, unauthorised),
                   (ADMIN_RE, 'WF', None, unauthorised)],   # the theorem also says the handler's own branch is untouched
@@ -157,13 +157,13 @@ CONFIG = {
         'assumptions': ['accounts are identified by the From string as the code does; an upper-case spelling of the holder is a different submitter'],
     },
     'C11': {
-        'profiles': [('roles-lifecycle', 60, 1500), ('roles-matrix', 60, 324)],
+        'profiles': [('dropped', 30, 600), ('roles-lifecycle', 60, 1500), ('roles-matrix', 60, 324)],
         'rules': [(ANY, 'S', r'^role '), (ROLE_TX_RE, 'R', None), (ROLE_TX_RE, 'E', None), (r'Q:Roles', 'QR', None)],
         'monitors': [M.mon_c11],
         'level_text': 'Theorem: for every transaction of every type by every submitter, accepted or not, the five role slots move exactly as the lifecycle automaton (Spec/Lifecycle.v) says, and therefore along every history; supersession, no replay of an acceptance, ownership only by acceptance of the pending owner, other roles only by the owner\'s update and only to valid addresses are proved on the automaton. The Go handlers are tied to the model by differential execution of role histories with valid, malformed, wrong-prefix, empty and upper-case new holders, interleaved with every other transaction type. Tied to the Go source twice: by TRANSLATION (tools/goextract reads the handler(s) from /repo on every run and emits Gallina programs; the theorem file proves they equal the model handlers for every request and state wherever the model gives a verdict - evidence lists which functions were translated on this run and which, if any, the translator could not read) and by differential execution.',
     },
     'C13': {
-        'profiles': [('attester-closure', 100, 1000), ('admin-random', 30, 600)],
+        'profiles': [('dropped', 30, 600), ('attester-closure', 100, 1000), ('admin-random', 30, 600)],
         'rules': [(ATT_TX_RE, 'R', None), (ANY, 'S', r'^(attester |num name=threshold)'), (ATT_TX_RE, 'E', None),
                   (ATT_TX_RE, 'WF', None),   # rejected attester transactions do not even touch their own branch (the named rejections are handler equalities)
                   (r'Q:(Attesters|SignatureThreshold)', 'QR', None)],
@@ -171,7 +171,7 @@ CONFIG = {
         'level_text': 'Theorem: 1 <= threshold <= number of enabled attesters is preserved by every transaction of every type with any arguments by any submitter, hence along every history of any length (up to the 2^32 point where Go\'s uint32(len) wraps, stated); the six named rejections are proved to be errors without effect. The Go handlers are tied to the model by exhaustive differential execution from every start state over a universe of 4 (thorough: 5) attester strings. Tied to the Go source twice: by TRANSLATION (tools/goextract reads the handler(s) from /repo on every run and emits Gallina programs; the theorem file proves they equal the model handlers for every request and state wherever the model gives a verdict - evidence lists which functions were translated on this run and which, if any, the translator could not read) and by differential execution.',
     },
     'C15': {
-        'profiles': [('admin-random', 40, 800), ('roles-matrix', 40, 324), ('flows', 25, 600), ('replace', 20, 500)],
+        'profiles': [('admin-random', 40, 800), ('roles-matrix', 40, 324), ('flows', 25, 600), ('replace', 20, 500), ('genesis', 60, 600)],
         'rules': [(r'TX:.*', 'S', None), (r'TX:.*', 'R', r'^(ok|err|panic)')],
         'model_monitors': [M.mon_c15],
         'level_text': 'Theorem: for every transaction type, input, state and dependency plan the store after the transaction agrees with the store before on every entry outside the documented write set (Spec/WriteDoc.v); transactions that are not accepted change nothing; collections a type does not write are unchanged as lists. Tied to the Go code twice: the tracing store service records every raw key written by every call and they must lie inside the documented set evaluated by the extracted specification for the concrete request; the per-handler write primitives are regenerated from the Go source on every run.',
